@@ -114,3 +114,9 @@ pub proof fn lemma_total_update<K, E>(m: Map<K, Seq<E>>, k: K, s: Seq<E>)
     lemma_total_remove(m.insert(k, s), k);
     assert(m.insert(k, s).remove(k) =~= m.remove(k));
 }
+
+pub broadcast proof fn lemma_skip_zero<A>(s: Seq<A>)
+    ensures #[trigger] s.skip(0) == s
+{
+    assert(s.skip(0) =~= s);
+}
